@@ -73,6 +73,12 @@ pub struct Script {
     /// poller must report the missing chunk, never skip ahead to them)
     #[serde(default)]
     pub hole_continue: u8,
+    /// lifetime of the stop handle (the Sender side of the stop channel): 0 = kept alive until polling has returned;
+    /// 1 = dropped before polling starts (after sending, for StopAfter(0)); 2 = dropped at the moment the consumer acts
+    /// (right after sending the stop, or together with the chunk receiver) or, for a consumer that never acts, before
+    /// polling starts. A dropped stop handle is not a stop signal: the expected history is the same in all three modes.
+    #[serde(default)]
+    pub stop_handle: u8,
 }
 
 const N_DIRS: usize = 999;
@@ -430,15 +436,28 @@ pub fn run_scenario(script: &Script) -> Result<Option<History>, Fail> {
     let (done_tx, done_rx) = mpsc::channel::<Result<Outcome, String>>();
 
     let consumer = script.consumer.clone();
+    let stop_handle = script.stop_handle % 3;
+    let mut stop_tx = Some(stop_tx);
     // k = 0: act before polling starts
     let mut rx_opt = Some(rx);
     match consumer {
         Consumer::StopAfter(0) => {
-            let _ = stop_tx.send(true);
+            if let Some(t) = &stop_tx {
+                let _ = t.send(true);
+            }
+            if stop_handle != 0 {
+                stop_tx = None; // the signal is already in the channel
+            }
         }
         Consumer::DropAfter(0) => {
             rx_opt = None;
+            if stop_handle != 0 {
+                stop_tx = None;
+            }
         }
+        Consumer::UntilNotFound if stop_handle != 0 => stop_tx = None,
+        Consumer::StopAfter(_) => {}
+        _ if stop_handle == 1 => stop_tx = None,
         _ => {}
     }
     let consumer_gate = gate.clone();
@@ -459,11 +478,19 @@ pub fn run_scenario(script: &Script) -> Result<Option<History>, Fail> {
                     got.push(Delivery { volume: id.volume().as_number(), name: id.name().to_string(), site: id.site().to_string(), when: id.date_time(), data });
                     match consumer {
                         Consumer::StopAfter(k) if k >= 1 && got.len() == k => {
-                            let _ = stop_tx.send(true);
+                            if let Some(t) = &stop_tx {
+                                let _ = t.send(true);
+                            }
+                            if stop_handle == 2 {
+                                stop_tx = None; // sent, then dropped: the signal stays in the channel
+                            }
                             consumer_gate.open();
                         }
                         Consumer::DropAfter(k) if k >= 1 && got.len() == k => {
                             rx = None; // drops the receiver
+                            if stop_handle == 2 {
+                                stop_tx = None; // a consumer that owns both ends goes away entirely
+                            }
                             consumer_gate.open();
                         }
                         _ => {}
@@ -654,12 +681,13 @@ pub fn script_strategy() -> impl Strategy<Value = Script> {
     }))
         .prop_map(|(start_volume, run_length, start_sequence, mut entries, never_at, consumer, (with_stats, delivery, tie_group), last_modified_header, (mut vcp, cuts))| {
             let hole_continue = (delivery / 4 + tie_group) % 4; // derived from other draws: 0..=3
+            let stop_handle = ((delivery as usize + start_sequence + run_length) % 3) as u8; // derived likewise: 0..=2
             vcp.cuts = cuts;
             if let (Some(sel), false) = (never_at, entries.is_empty()) {
                 let i = (sel as usize * entries.len()) >> 16;
                 entries[i].delay = NEVER;
             }
-            Script { start_volume, run_length, start_sequence, entries, consumer, with_stats, last_modified_header, vcp, delivery, tie_group, hole_continue }
+            Script { start_volume, run_length, start_sequence, entries, consumer, with_stats, last_modified_header, vcp, delivery, tie_group, hole_continue, stop_handle }
         })
 }
 
@@ -682,6 +710,7 @@ pub fn classify(s: &Script) -> CaseInfo {
         .class(!s.last_modified_header, "no-last-modified-header")
         .class(s.run_length >= 100, "widely-populated-bucket")
         .class(s.tie_group >= 2, "tied-upload-times")
+        .class(s.stop_handle % 3 != 0, "stop-handle-dropped-early")
         .class(s.delivery & 4 != 0, "pretty-printed-listings")
         .class(s.hole_continue > 0 && s.entries.iter().take(natural.len()).any(|e| e.delay == NEVER), "uploader-continues-past-a-missing-chunk")
 }
@@ -707,6 +736,7 @@ pub fn run(ctx: &Ctx, rep: &mut Report) {
     rep.require_class("scenarios", "wrap-999-to-1", 5);
     rep.require_class("scenarios", "stop", 30);
     rep.require_class("scenarios", "consumer-dropped", 20);
+    rep.require_class("scenarios", "stop-handle-dropped-early", 50);
     rep.require_class("scenarios", "delayed-or-faulted-chunk", 50);
     rep.require_class("scenarios", "widely-populated-bucket", 20);
     rep.require_class("scenarios", "tied-upload-times", 40);
